@@ -28,7 +28,8 @@ RULE = ('linkers over 0..2/3 scripted submodels x selections (None, all ordered 
         'tol in {0.5, 4} (submodels and linker carry an unchecked endogenous variable that never settles) x all joint outcome sequences over {c,m} with single deviations to {exactly tol, negative, 0.75 tol}; '
         'states = distinct (selection, options) configurations, transitions = linker solve_t calls, traces = runs compared with the reference loop; '
         'plus construction over 0..3 submodels with lag/lead lengths and spans that differ in start or in length. non-trivial = at least one iteration executed or a rejection checked'
-        " Offsets with a linker pre-solution hook that writes endogenous values; spans equal in length and end points only; every joint script (max_iter >= 2) again with the linker's movement made in evaluate_t_before and through solve_period.")
+        " Offsets with a linker pre-solution hook that writes endogenous values; spans equal in length and end points only; every joint script (max_iter >= 2) again with the linker's movement made in evaluate_t_before and through solve_period."
+        ' Submodels sharing one span object; models without endogenous variables (empty program, data holder) alone and next to a sibling x min/max_iter.')
 ASSUMPTIONS = [
     'scripted steps are exact binary fractions; reference loop written from the statement',
     'linker.solve_t with min_iter > max_iter is not demanded to raise (statement is silent for the linker)',
@@ -373,7 +374,15 @@ def run_construct_case(case):
     specs, n = case['specs'], case['n']
     out = []
     subs = {}
+    shared = {}
     for j, (lags, leads, lo, extra) in enumerate(specs):
+        if case.get('shared_span_objects') and lo != 'irregular':
+            # submodels built on one and the same span object (the usual way to set a linker up)
+            key = (lo, extra)
+            if key not in shared:
+                shared[key] = list(range(lo, lo + n + extra))
+            subs['s%d' % j] = lagged_class(lags, leads)(shared[key])
+            continue
         if lo == 'irregular':
             # same length, same first and last label as range(0, n + extra), another label in between
             labels = list(range(0, n + extra))
@@ -409,7 +418,62 @@ def run_construct_case(case):
     return out
 
 
+class Holder(BaseModel):
+    # a hand-written model that declares no endogenous variable and still does its work in _evaluate()
+    ENDOGENOUS = []
+    EXOGENOUS = ['Y', 'X']
+    PARAMETERS = []
+    ERRORS = []
+    NAMES = ['Y', 'X']
+    CHECK = []
+
+    def _evaluate(self, t, **kw):
+        self._Y[t] = self._X[t] + 10.0
+
+
+_EMPTY_PROGRAM = fsic.build_model(fsic.parse_model(''))
+
+
+@robust()
+def run_undeclared_case(case):
+    """The single-model law for models without endogenous variables (an empty program; a data holder whose _evaluate() writes an
+    undeclared output), alone in a linker and next to an ordinary submodel: evaluated once per iteration, stamped like the others."""
+    def mk():
+        if case['model'] == 'empty-program':
+            return _EMPTY_PROGRAM(range(4))
+        return Holder(range(4), X=[1.0, 2.0, 3.0, 4.0])
+    kw = dict(max_iter=case['max_iter'], min_iter=case['min_iter'], failures='ignore')
+    m, w = mk(), mk()
+    subs = {'m': w}
+    if case['with_sibling']:
+        subs['z'] = lagged_class(0, 0)(range(4))
+    lk = BaseLinker(subs)
+    rm = refsolve.call_outcome(m.solve_t, 1, **kw)[:2]
+    rl = refsolve.call_outcome(lk.solve_t, 1, **kw)[:2]
+    out = []
+    got = (rl, str(w.status[1]), int(w.iterations[1]), [canon(w[n]) for n in w.names], str(lk.status[1]), int(lk.iterations[1]))
+    want = (rm, str(m.status[1]), int(m.iterations[1]), [canon(m[n]) for n in m.names], str(m.status[1]), int(m.iterations[1]))
+    if got != want:
+        out.append(('bare:no-endogenous-variables:%s' % case['model'], [str(x)[:60] for x in want], [str(x)[:60] for x in got], 'a submodel without endogenous variables is not solved through the linker as it is on its own'))
+    return out
+
+
+def run_undeclared(acc, tier):
+    for model in ('empty-program', 'holder'):
+        for with_sibling in (False, True):
+            for max_iter in (0, 1, 3):
+                for min_iter in (0, 1, 3):
+                    if min_iter > max_iter:
+                        continue
+                    case = dict(kind='undeclared', model=model, with_sibling=with_sibling, max_iter=max_iter, min_iter=min_iter)
+                    acc.evaluations += 1
+                    acc.nontrivial += 1
+                    for key, exp, obs, what in run_undeclared_case(case):
+                        acc.violation(key, case, exp, obs, what)
+
+
 def run_construct(acc, tier):
+    run_undeclared(acc, tier)
     n = 6
     ll = [(0, 0), (1, 0), (0, 2), (2, 1)]
     for k in range(0, 4):
@@ -417,11 +481,14 @@ def run_construct(acc, tier):
             # spans differ by where they start and/or by how long they are (same start, one span a prefix of the other)
             for los in itertools.product(((0, 0), (1, 0), (0, 1), (0, -2), ('irregular', 0)), repeat=k):
                 specs = [(a, b, lo, extra) for (a, b), (lo, extra) in zip(combo, los)]
-                case = {'kind': 'construct', 'specs': specs, 'n': n}
-                acc.evaluations += 1
-                acc.nontrivial += 1
-                for key, exp, obs, what in run_construct_case(case):
-                    acc.violation(key, case, exp, obs, what)
+                for shared_objs in (False, True):
+                    if shared_objs and (k < 2 or any(lo == 'irregular' for lo, _ in los)):
+                        continue
+                    case = {'kind': 'construct', 'specs': specs, 'n': n, 'shared_span_objects': shared_objs}
+                    acc.evaluations += 1
+                    acc.nontrivial += 1
+                    for key, exp, obs, what in run_construct_case(case):
+                        acc.violation(key + (':one-span-object' if shared_objs else ''), case, exp, obs, what)
 
 
 class OffSub(BaseModel):
@@ -595,7 +662,7 @@ def run_block(block, tier, seed):
 def run_one(case):
     k = case['kind']
     return {'scripted': run_scripted_case, 'bare': run_bare_case, 'construct': run_construct_case,
-            'offset': run_offset_case, 'solve': run_solve_case}[k](case)
+            'offset': run_offset_case, 'solve': run_solve_case, 'undeclared': run_undeclared_case}[k](case)
 
 
 def finalize(acc, tier, seed):
